@@ -64,6 +64,20 @@ NCfillrecord(XDR *xdrs, NC_var **vpp, unsigned numvars)
 }
 
 /*
+ * The user's fill value of a variable: the _FillValue attribute, if it is one value of the variable's own type
+ * (the same test xdr_NC_fill makes); an attribute of another type or count cannot be copied element by element.
+ */
+static NC_attr **
+NC_find_fillvalue(NC_var *vp)
+{
+    NC_attr **attr = NC_findattr(&vp->attrs, _FillValue);
+
+    if (attr != NULL && ((*attr)->data->type != vp->type || (*attr)->data->count != 1))
+        attr = NULL;
+    return attr;
+}
+
+/*
  * Check whether coords are valid for the variable.
  * For 'record' variables:
  *    + if the accessing is writing, add and fill records out with
@@ -76,6 +90,7 @@ NCfillrecord(XDR *xdrs, NC_var **vpp, unsigned numvars)
  *    + update NC.numrecs to NC_var.numrecs if NC_var.numrecs is larger
  * -BMR, 12/09/2008
  */
+
 bool_t
 NCcoordck(NC *handle, NC_var *vp, const long *coords)
 {
@@ -172,7 +187,7 @@ NCcoordck(NC *handle, NC_var *vp, const long *coords)
                 return FALSE;
 
             /* Find the attribute _FillValue to get the user's fill value */
-            attr = NC_findattr(&vp->attrs, _FillValue);
+            attr = NC_find_fillvalue(vp);
 
             /* If the attribute is found, fill strg with the fill value */
             if (attr != NULL)
@@ -824,7 +839,7 @@ hdf_xdr_NCvdata(NC *handle, NC_var *vp, unsigned long where, nc_type type, uint3
         if (vp->data_ref == 0) {
             if (handle->hdf_mode == DFACC_RDONLY) {
                 if (vp->data_tag == DATA_TAG || vp->data_tag == DFTAG_SDS) {
-                    if ((attr = NC_findattr(&vp->attrs, _FillValue)) != NULL)
+                    if ((attr = NC_find_fillvalue(vp)) != NULL)
                         HDmemfill(values, (*attr)->data->values, vp->szof, count);
                     else
                         NC_arrayfill(values, count * vp->szof, vp->type);
@@ -853,7 +868,7 @@ hdf_xdr_NCvdata(NC *handle, NC_var *vp, unsigned long where, nc_type type, uint3
 
     /* Check for zero-length compressed special element, i.e. a template */
     if (elem_length <= 0) {
-        attr = NC_findattr(&vp->attrs, _FillValue);
+        attr = NC_find_fillvalue(vp);
 
         /* Check for reading from template & fill memory buffer with fill-value */
         if (handle->xdrs->x_op == XDR_DECODE) {
@@ -1858,7 +1873,7 @@ NC_fill_buffer(NC *handle, int varid, const long *edges, void *values)
         buf_size = buf_size * edges[ii];
 
     /* Find user-defined fill-value and fill the buffer with it */
-    attr = NC_findattr(&vp->attrs, _FillValue);
+    attr = NC_find_fillvalue(vp);
     if (attr != NULL) {
         if (HDmemfill(values, (*attr)->data->values, vp->szof, buf_size) == NULL) {
             return -1;
